@@ -110,6 +110,18 @@ CORPUS = [
     "D:from t | take 5 | take 2..3 | filter a > 1 | take 1",
     "D:from t | sort a | group c (take 1) | sort b | take 3",
     "D:from t | group a (sort b | take 1) | group b (sort a | take 1)",
+    # group keys WITH AN ALIAS (the Flattener copies the `by` tuple into the partition of every transform of the group's pipeline; lowering
+    # must lower such a key once): several transforms inside the group, aggregate followed by more, join / append of an inline sub-pipeline
+    "D:from t | group {k = b % 2} (aggregate {s = sum a} | derive {w = s + 1})",
+    "D:from t | group {k = b % 2} (aggregate {s = sum a, n = count this} | filter n > 0 | select {s})",
+    "D:from t | group {k = b % 2, j = c} (sort a | take 2 | derive {w = a + 1})",
+    "D:from t | group {k = b % 2} (derive {w = a + 1} | sort w | take 1)",
+    "D:from t | group {k = b % 2} (join side:left (from u | select {x = a, y = d}) (a == x))",
+    "D:from t | group {k = b % 2} (join (from u | select {x = a}) (a == x) | derive {w = a + x})",
+    "D:from t | group {k = b % 2} (append (from t | select {a, b, c}))",
+    "D:from t | group {k = b % 2} (take 1) | derive {z = k + 1} | join (from u | select {x = a}) (a == x)",
+    "D:from t | group {k = a + b, b} (aggregate {n = count this} | derive {m = n * 2}) | sort k",
+    "D:from t | derive {q = a * 2} | group {k = q % 3} (window rows:-1..0 (derive {s = sum b}) | take 2)",
     "D:from t | join u (==a) | group t.a (aggregate {n = count this}) | join side:left v (==a) | sort {-n}",
     "D:from t | derive {k = a % 2} | group k (derive {r = row_number this, s = sum b}) | filter r <= 2 | aggregate {m = max s}",
     "D:from t | join u (==a) | derive {r = row_number this} | filter r < 3 | select {t.a, u.d, r}",
@@ -517,6 +529,8 @@ def partition_hidden_by_inner_select(doc, cid):
             k = next(iter(t))
             if k == "Take":
                 parts |= set(t["Take"].get("partition") or [])
+            elif k == "Aggregate":
+                parts |= set(t["Aggregate"].get("partition") or [])
             elif k == "Compute" and (t["Compute"].get("window") or {}).get("partition"):
                 parts |= set(t["Compute"]["window"]["partition"])
             elif k == "Select":
